@@ -196,6 +196,12 @@ type c13In struct {
 	// together: request i+1 is served completely during the At[i]-th body write of request i
 	Subs []*c13In `json:"subs,omitempty"`
 	At   []int    `json:"at,omitempty"`
+	// after: Subs = [A, B]; request A fails part-way (Fail: "reader" = its body reader returns an error
+	// after K bytes, "limit" = the body is cut by http.MaxBytesReader at K bytes (the limits directive:
+	// 413), "backend" = its responder resets the connection while the body is being sent), then
+	// request B is served and judged like a serve case of its own
+	Fail string `json:"fail,omitempty"`
+	K    int    `json:"k,omitempty"`
 	// wire
 	Pairs   []c13KV `json:"pairs,omitempty"`
 	HasBody bool    `json:"hasbody,omitempty"`
@@ -736,6 +742,101 @@ func (w *c13HookWriter) Write(p []byte) (int, error) {
 
 func c13RunServe(in *c13In) Result { return c13ServeOne(in, 0, 0, nil) }
 
+// ---------- after: a request that fails part-way, then another one ----------
+// c13Fail is set while request A of an `after` case runs through c13ServeOne.
+var c13Fail struct {
+	kind string
+	k    int
+}
+var c13BadLn net.Listener
+
+// c13BadBackend: a FastCGI "responder" that resets every connection as soon as it is accepted.
+func c13BadBackend() string {
+	if c13BadLn == nil {
+		ln, err := net.Listen("tcp", "127.0.0.1:0")
+		if err != nil {
+			panic(err)
+		}
+		c13BadLn = ln
+		go func() {
+			for {
+				cn, err := ln.Accept()
+				if err != nil {
+					return
+				}
+				if tc, ok := cn.(*net.TCPConn); ok {
+					tc.SetLinger(0)
+				}
+				cn.Close()
+			}
+		}()
+	}
+	return c13BadLn.Addr().String()
+}
+
+// c13FailingBody: the first k bytes of the body, then a read error that is not io.EOF
+type c13FailingBody struct {
+	r     io.Reader
+	left  int
+	pause bool // yield on every read (lets the resetting backend run on the single P)
+}
+
+func (b *c13FailingBody) Read(p []byte) (int, error) {
+	if b.pause {
+		time.Sleep(2 * time.Millisecond)
+		return b.r.Read(p)
+	}
+	if b.left <= 0 {
+		return 0, fmt.Errorf("c13: connection reset by the uploading client")
+	}
+	if len(p) > b.left {
+		p = p[:b.left]
+	}
+	n, err := b.r.Read(p)
+	b.left -= n
+	if err == io.EOF {
+		err = nil
+	}
+	return n, err
+}
+func (b *c13FailingBody) Close() error { return nil }
+
+func c13WrapFailing(rc io.ReadCloser) io.ReadCloser {
+	switch c13Fail.kind {
+	case "reader":
+		return &c13FailingBody{r: rc, left: c13Fail.k}
+	case "limit":
+		return http.MaxBytesReader(nil, rc, int64(c13Fail.k))
+	case "backend":
+		return &c13FailingBody{r: rc, pause: true}
+	}
+	return rc
+}
+
+func c13RunAfter(in *c13In) Result {
+	defer c13PinOneP()()
+	if len(in.Subs) != 2 {
+		panic("after: two requests expected")
+	}
+	c13Fail.kind, c13Fail.k = in.Fail, in.K
+	ra := c13ServeOne(in.Subs[0], 1, 0, nil)
+	c13Fail.kind, c13Fail.k = "", 0
+	rb := c13ServeOne(in.Subs[1], 0, 0, nil)
+	sig := rb.Sig
+	if sig == "serve:plain" {
+		sig = "serve:after-a-request-that-failed-part-way"
+	}
+	outA, outB := "?", "?"
+	if m, ok := ra.Obs.(map[string]interface{}); ok {
+		outA = fmt.Sprint(m["outcome"], "/", m["status"])
+	}
+	if m, ok := rb.Obs.(map[string]interface{}); ok {
+		outB = fmt.Sprint(m["outcome"])
+	}
+	return Result{Term: rb.Term, Obs: map[string]interface{}{"failed_request": ra.Obs, "request": rb.Obs}, Sig: sig, Direct: rb.Direct,
+		Nontrivial: outB == "dispatched", Class: fmt.Sprintf("after:%s:A=%s:B=%s", in.Fail, outA, outB)}
+}
+
 // c13ServeOne runs one serve case against the responder of the given level; `during` (if any) is
 // called inside the at-th body write of the response.
 func c13ServeOne(in *c13In, level, at int, during func()) Result {
@@ -750,7 +851,11 @@ func c13ServeOne(in *c13In, level, at int, during func()) Result {
 	var declared []fastcgi.Rule
 	presetBlock, unknownPreset := false, false
 	for i, ru := range in.Rules {
-		fmt.Fprintf(&sb, "fastcgi %s %s", c13Quote(ru.Path), srv.ln.Addr().String())
+		backend := srv.ln.Addr().String()
+		if c13Fail.kind == "backend" {
+			backend = c13BadBackend()
+		}
+		fmt.Fprintf(&sb, "fastcgi %s %s", c13Quote(ru.Path), backend)
 		if n, ok := c13PresetName(ru); ok {
 			sb.WriteString(" " + c13Quote(n))
 			if n != "php" {
@@ -845,7 +950,7 @@ func c13ServeOne(in *c13In, level, at int, during func()) Result {
 	u := &url.URL{Path: in.Path, RawQuery: in.Query}
 	req := &http.Request{Method: in.Method, URL: u, Proto: in.Proto, ProtoMajor: 1, ProtoMinor: 1, Header: hdr,
 		Host: in.Host, RemoteAddr: in.Remote, ContentLength: in.CL,
-		Body: c13BodyReader(in, body)}
+		Body: c13WrapFailing(c13BodyReader(in, body))}
 	qtls := "None"
 	if len(in.TLS) == 2 {
 		req.TLS = &tls.ConnectionState{Version: uint16(in.TLS[0]), CipherSuite: uint16(in.TLS[1]), HandshakeComplete: true}
@@ -903,6 +1008,9 @@ func c13ServeOne(in *c13In, level, at int, during func()) Result {
 	wait := 2 * time.Millisecond
 	if setupErr == nil && panicked == "" && !nextCalled && status != 500 {
 		wait = 3 * time.Second
+	}
+	if c13Fail.kind == "backend" {
+		wait = 2 * time.Millisecond
 	}
 	deadline := time.After(wait)
 poll:
@@ -1412,6 +1520,8 @@ func c13Run(in0 interface{}) Result {
 		return c13RunOverlap(in)
 	case "together":
 		return c13RunTogether(in)
+	case "after":
+		return c13RunAfter(in)
 	}
 	panic("bad kind " + in.Kind)
 }
@@ -2367,6 +2477,47 @@ func c13GenTogether(r *Rand) *c13In {
 	return in
 }
 
+// c13GenAfter: request A (POST with a body of several records) fails part-way — its body reader
+// errors after K bytes, or the body is cut at K bytes by the limits directive's MaxBytesReader, or
+// its responder resets the connection while the body is sent — then request B (any method, with or
+// without body, any script) is served by the same process.
+func c13GenAfter(r *Rand) *c13In {
+	in := &c13In{Kind: "after", Fail: r.Pick([]string{"reader", "reader", "limit", "limit", "backend"})}
+	mk := func(i int, method string, nb int) *c13In {
+		sub := &c13In{Kind: "serve", Proto: "HTTP/1.1", Host: "site.test:8080", Remote: fmt.Sprintf("192.0.2.%d:5%d", 7+i, 1000+i), Prefix: "/",
+			Method: method, Path: r.Pick([]string{"/index.php", "/app/x.php", "/a.php/extra", "/app/info.php"}), Query: fmt.Sprintf("req=%d", i)}
+		sub.Rules = []c13Rule{{Path: "/", Preset: true}}
+		sub.Headers = [][]string{{"User-Agent", fmt.Sprintf("verif/1.0 (c13 after %d)", i)}}
+		if method == "POST" || method == "PUT" {
+			sub.Body = c13Compress(c13OwnPattern(i, r.Intn(251), nb))
+			sub.CL = int64(nb)
+			sub.Headers = append(sub.Headers, []string{"Content-Length", strconv.Itoa(nb)})
+		}
+		if r.Chance(50) {
+			sub.Fields = append(sub.Fields, [2]string{"Status", r.Pick([]string{"200 OK", "404 Not Found", "201 Created"})})
+		}
+		sub.Fields = append(sub.Fields, [2]string{"Content-Type", "application/octet-stream"}, [2]string{"X-Response", strconv.Itoa(i)})
+		rb := c13OwnPattern(i, r.Intn(251), r.Range(0, 3000))
+		sub.RBody = c13Compress(rb)
+		sub.Recs = c13BigFrame(r, append(c13Head(sub.Fields), rb...), false)
+		return sub
+	}
+	nas := []int{300, 5000, 65499, 65500, 65501, 70000, 131000, 131001, 200000, 300000}
+	na := nas[r.Intn(len(nas))]
+	if in.Fail == "backend" {
+		na = []int{200000, 300000, 400000}[r.Intn(3)]
+	}
+	a := mk(0, "POST", na)
+	ks := []int{1, 17, 299, 4096, 65499, 65500, 65501, 69999, 131000, 131001, 199999}
+	in.K = ks[r.Intn(len(ks))]
+	if in.K >= na {
+		in.K = r.Range(1, na-1)
+	}
+	b := mk(1, r.Pick([]string{"GET", "GET", "POST", "HEAD", "PUT"}), []int{0, 1, 300, 70000}[r.Intn(4)])
+	in.Subs = []*c13In{a, b}
+	return in
+}
+
 func c13Gen(r *Rand, tier string) []interface{} {
 	nm := 120
 	if tier == "thorough" {
@@ -2423,6 +2574,13 @@ func c13Gen(r *Rand, tier string) []interface{} {
 			extra = append(extra, c13GenTogether(r))
 		}
 	}
+	naf := 40
+	if tier == "thorough" {
+		naf = 400
+	}
+	for i := 0; i < naf; i++ {
+		extra = append(extra, c13GenAfter(r))
+	}
 	var all []interface{}
 	e := 0
 	for i, c := range out {
@@ -2443,7 +2601,7 @@ func init() {
 			"(serve) real fastcgi setup + Handler.ServeHTTP on a real directory tree (sites with 1-2 php rules, and sites with 2-3 rules for different responders - catch-all + narrower, different ext / split, in any order - and requests for scripts of the later rules) against a byte-level loopback responder (env entries with placeholders that are valued / empty for the request; the same run-length boundary framings); " +
 			"(child) the same handler against Go's net/http/fcgi responder; " +
 			"(serve, preset+block) directives with a preset name (known / unknown) AND ext / split / index / except / env / root in the block, the directives as written handed to Coq next to the parsed rules; " +
-			"(overlap) 2-3 streamReaders read by one schedule, records larger than the read buffers; (together) 2-3 requests through the handler, request i+1 served completely during a body write of request i, own responder and byte pattern each. " +
+			"(overlap) 2-3 streamReaders read by one schedule, records larger than the read buffers; (together) 2-3 requests through the handler, request i+1 served completely during a body write of request i, own responder and byte pattern each; (after) two requests in sequence through the handler on one P: request A fails part-way (body reader error after K bytes, body cut by MaxBytesReader at K bytes, or the responder resets the connection while the body is sent), then request B is served and judged like a serve case of its own (the responder must receive exactly B's records). " +
 			"non-trivial = wire case with at least one pair or body byte, demux case with >= 2 records (runs expanded), serve case that reached the responder or the next handler or whose setup was refused, overlap case with >= 2 readers, together case whose requests all reached their responder; distinct = distinct Coq case term",
 		Gen: c13Gen,
 		Decode: func(raw json.RawMessage) (interface{}, error) {
